@@ -67,9 +67,10 @@ def checkGtpu (what : String) (impl : String) (want : List Bytes) : List String 
     | none => [s!"C13 {what}: unparsable datagram list"]
     | some got =>
       if got == want then [] else
-      let decoded := got.map fun b => (GtpuRef.decode b).map fun p => (p.teid, p.payload.length)
+      let decoded := got.map fun b => (GtpuRef.decode b).map fun p =>
+        (p.teid, (p.exts.filterMap GtpuRef.pduSessInfo).map (·.qfi), p.payload.length)
       [s!"C13 {what}: {got.length} datagram(s) reached the tunnel endpoint, the packets buffered for the PDRs of this FAR call for {want.length} " ++
-       s!"(in arrival order, once each, with the FAR's TEID and the session's QFI); decoded (teid, payload length): {reprStr decoded}"]
+       s!"(in arrival order, once each, with the FAR's TEID and the session's QFI); decoded (teid, QFI, payload length): {reprStr decoded}"]
 
 def eval (st : St) (fn : String) (args : List String) (impl : String) : Option (St × Verdict) := do
   match fn, args with
